@@ -39,6 +39,51 @@ def exchange(ctx, pin_acc, pin_ctl, salt, b, a_bytes, want_lead=None):
     return srv, c, A_b, M1, K, Bb, lead
 
 
+def through_generators(ctx, pin, salt, b, a_bytes, kind):
+    """the same exchange as the library itself runs it: perform_pair_setup_part1 takes salt and B from the accessory's M2,
+    part2 sends A and the proof, checks the accessory's proof and then USES the session key (M5 is sealed under a key
+    derived from it).  A conformant accessory - the reference server plus HKDF/ChaCha20-Poly1305 over the full 64-byte K -
+    must accept every step."""
+    from cryptography.hazmat.primitives.ciphers.aead import ChaCha20Poly1305
+
+    import aiohomekit.protocol as P
+
+    from harness.c01 import L
+    srv = refacc.SrpServer(pin, salt, b)
+    Bb = refacc.PAD(srv.B)
+    case = {"stream": "generators", "kind": kind, "pin": pin, "salt": hx(salt), "b": str(b), "a": hx(a_bytes)}
+    ctx.evaluations += 1
+    ctx.nontrivial.add(("generators", kind, salt == bytes(16), salt[0] == 0))
+    ctx.dist["generators:" + kind] += 1
+    g1 = P.perform_pair_setup_part1(False)
+    g1.send(None)
+    try:
+        g1.send(L([(6, b"\x02"), (3, Bb), (2, salt)]))
+        return ctx.violation("generators/part1", "part 1 did not finish on a well-formed M2", case)
+    except StopIteration as st:
+        got_salt, got_B = bytes(st.value[0]), bytes(st.value[1])
+    except Exception as e:  # noqa: BLE001
+        return ctx.violation("generators/part1", f"part 1 refuses the accessory's M2 (salt {hx(salt)}): {type(e).__name__}: {e}", case)
+    if got_salt != salt or got_B != Bb:
+        return ctx.violation("generators/part1", "part 1 hands on a salt or public value other than the accessory's", case)
+    with mock.patch.object(srpmod.os, "urandom", lambda n: a_bytes):
+        g2 = P.perform_pair_setup_part2(pin, "ctl-uuid", bytearray(got_salt), bytearray(got_B))
+        m3 = dict((k, bytes(v)) for k, v in g2.send(None)[0])
+    srv.on_A(m3[3])
+    if m3[3] != refacc.PAD(srv.A) or m3[4] != srv.M1:
+        return ctx.violation("generators/M3", "the accessory does not accept the controller's public value / proof as sent in M3", case)
+    try:
+        m5 = dict((k, bytes(v)) for k, v in g2.send(L([(6, b"\x04"), (4, srv.M2)]))[0])
+    except Exception as e:  # noqa: BLE001
+        return ctx.violation("generators/M4", f"the accessory's correct proof is refused: {type(e).__name__}", case)
+    ekey = refacc.hk(srv.K, b"Pair-Setup-Encrypt-Salt", b"Pair-Setup-Encrypt-Info")
+    try:
+        ChaCha20Poly1305(ekey).decrypt(b"\0\0\0\0PS-Msg05", m5[5], b"")
+    except Exception:  # noqa: BLE001
+        return ctx.violation("generators/K", f"the accessory cannot open M5: the controller's session key is not the accessory's 64-byte K (K starts with {hx(srv.K[:2])})", case)
+    return None
+
+
 def run(ctx: Ctx, driver: Driver):
     rng = ctx.rng
     rb = lambda n: bytes(rng.randrange(256) for _ in range(n))  # noqa: E731
@@ -127,8 +172,11 @@ def run(ctx: Ctx, driver: Driver):
         one("031-45-154", "031-45-154", rb(16), int.from_bytes(rb(32), "big"), found["A"], "directed-A0")
     if found["B"]:
         one("031-45-154", "031-45-154", salt0, found["B"], rb(16), "directed-B0")
-    # S, M1, M2 leading zero: draw exchanges until hit (each costs a few modexps)
-    need = {"S", "M1", "M2"}
+    # the library's own use of the client, over the salts that matter
+    for salt in (bytes(16), b"\x00" + rb(15), b"\x00\x00" + rb(14), rb(16), rb(15) + b"\x00"):
+        through_generators(ctx, rng.choice(pins), salt, int.from_bytes(rb(32), "big"), rb(16), "salts")
+    # S, M1, M2, K leading zero: draw exchanges until hit (each costs a few modexps)
+    need = {"S", "M1", "M2", "K"}
     tries = 0
     while need and tries < ctx.budget(700, 4000):
         tries += 1
@@ -138,13 +186,15 @@ def run(ctx: Ctx, driver: Driver):
         srv = refacc.SrpServer("031-45-154", salt, b)
         A_b = refacc.PAD(pow(g, int.from_bytes(ab, "big"), N))
         srv.on_A(A_b)
-        hit = {k for k, v in {"S": refacc.PAD(srv.S)[0] == 0, "M1": srv.M1[0] == 0, "M2": srv.M2[0] == 0}.items() if v} & need
+        hit = {k for k, v in {"S": refacc.PAD(srv.S)[0] == 0, "M1": srv.M1[0] == 0, "M2": srv.M2[0] == 0, "K": srv.K[0] == 0}.items() if v} & need
         if hit:
+            through_generators(ctx, "031-45-154", salt, b, ab, "directed-" + "".join(sorted(hit)) + "0")
+        if hit - {"K"}:
             s2, c2, Bb2, a2 = one("031-45-154", "031-45-154", salt, b, ab, "directed-" + "".join(sorted(hit)) + "0")
             verify_case(s2, c2, "031-45-154", salt, Bb2, a2, s2.M2, True, "correct-leading-zero")
             if "M2" in hit:
                 verify_case(s2, c2, "031-45-154", salt, Bb2, a2, s2.M2[1:], True, "leading-zero-stripped")
-            need -= hit
+        need -= hit
     if need:
         ctx.notes.append(f"directed search did not hit a leading zero in {sorted(need)} within {tries} exchanges this run")
     ctx.sample({k: v for k, v in cases[0].items()})
